@@ -257,6 +257,116 @@ def build_cleanup(ck, src, obs=None):
     return {"eng": eng, "hyps": hyps, "goals": {g: z3.Implies(pc, f) for g, f in G.items()}, "reach": {"reach_end": pc}}
 
 
+def build_persist(ck, src, obs=None):
+    """sync_counters (snapshot + serialise + write) followed by a restart (new_with_sync_interval -> load_counters): the reloaded store holds, for every peer,
+    exactly the counter that was persisted -- so a number it had accepted is classified as a replay after the restart.  The file system and postcard are the
+    ENVIRONMENT: a write stores the serialised image or fails, a read returns what was stored, (de)serialisation is the identity on the image."""
+    import re
+
+    from summaries import RESULT, UNIT
+
+    eng = ck.engine(unwind=12) if obs is None else ck.meta_engine()
+    uval, ku = user(src, "u")
+    oval, ko = user(src, "o")
+    probes = {"cand": ku, "other": ko}
+    # a FINITE map (two arbitrary peers): a reload that filters / retains / re-collects the counters is then executable
+    m0 = src.map("M", 256, counter_template(eng), probes, finite={"cand": uval, "other": oval})
+    stats_vals = [src.bv("stats." + n, 64) for n in STATS]
+    hyps = list(src.hyps) + [ku != ko, counter_inv(eng, m0, ku), counter_inv(eng, m0, ko)] + [z3.ULT(s, bv(1 << 20, 64)) for s in stats_vals]
+    if obs is None:
+        st = State()
+        sysv, cref = system_value(eng, st, m0, stats_vals)
+        disk = {"image": None, "written": z3.BoolVal(False), "maps": []}
+        write_ok = src.bool("env.write_ok")
+
+        def ok(v):
+            return VEnum(RESULT, bv(0, 8), {0: (v,), 1: (VOpaque("error"),)})
+
+        def h_ser(e, s_, a, d, c, m):
+            from summaries import deref
+
+            from values import VBlob
+
+            disk["maps"].append(deref(e, s_, a[0]))
+            return ok(VBlob(bv(0x1000 + len(disk["maps"]), 64), e.fresh_bv("image.len", 64)))
+
+        def h_write(e, s_, a, d, c, m):
+            disk["image"] = a[1]
+            disk["written"] = z3.And(s_.pc, write_ok)
+            return VStruct([VEnum(RESULT, z3.If(write_ok, bv(0, 8), bv(1, 8)), {0: (UNIT,), 1: (VOpaque("io::Error"),)})], "ReadyFuture")
+
+        def h_exists(e, s_, a, d, c, m):
+            return z3.BoolVal(True)
+
+        def h_read(e, s_, a, d, c, m):
+            if disk["image"] is None:
+                raise harness.SymError("read before any write")
+            return VStruct([ok(disk["image"])], "ReadyFuture")
+
+        def h_de(e, s_, a, d, c, m):
+            from summaries import deref
+
+            from values import VBlob, VBytes
+
+            img = deref(e, s_, a[0])
+            ident = None
+            if isinstance(img, VBlob):
+                ident = img.id
+            elif isinstance(img, VBytes) and len(img.chunks) == 1 and img.chunks[0][0] == "o":
+                ident = img.chunks[0][1]
+            n = z3.simplify(ident).as_long() - 0x1001 if ident is not None and z3.is_bv_value(z3.simplify(ident)) else -1
+            if not (0 <= n < len(disk["maps"])):
+                raise harness.SymError(f"deserialising something that was not serialised by the store: {img!r} {getattr(img, 'chunks', None)}")
+            return ok(disk["maps"][n])
+
+        def h_mkdir(e, s_, a, d, c, m):
+            return VStruct([ok(UNIT)], "ReadyFuture")
+
+        def h_parent(e, s_, a, d, c, m):
+            return VEnum(eng.enum_info("Option"), bv(0, 8), {0: ()})
+
+        S = eng.summaries
+        S.insert(0, (re.compile(r"^(postcard::)?to_stdvec::<.*HashMap<.*PeerCounter>>$"), h_ser, "ENVIRONMENT postcard::to_stdvec(&counters) -> the serialised image (identity; serde derive output is not executed)"))
+        S.insert(0, (re.compile(r"^tokio::fs::write::<.*>$"), h_write, "ENVIRONMENT tokio::fs::write -> stores the image or fails (arbitrary)"))
+        S.insert(0, (re.compile(r"^(std::path::)?Path::exists$|^(std::path::)?PathBuf::exists$"), h_exists, "Path::exists -> true (the file was written before the restart)"))
+        S.insert(0, (re.compile(r"^tokio::fs::read::<.*>$"), h_read, "ENVIRONMENT tokio::fs::read -> the image last written"))
+        S.insert(0, (re.compile(r"^(postcard::)?from_bytes::<.*HashMap<.*PeerCounter>>$"), h_de, "ENVIRONMENT postcard::from_bytes -> the map whose image this is"))
+        S.insert(0, (re.compile(r"^tokio::fs::create_dir_all::<.*>$"), h_mkdir, "tokio::fs::create_dir_all -> Ok"))
+        S.insert(0, (re.compile(r"^(std::path::)?Path(Buf)?::parent$"), h_parent, "Path::parent -> None (no directory to create)"))
+        path = eng.alloc(st, VOpaque("path"))
+        sref = sysv.f[eng.struct_adt("MonotonicCounterSystem").field_index("stats")]
+        st1, out1 = run_async(eng, ck.fn_in("MonotonicCounterSystem", "sync_counters"), [eng.alloc(st, cref), path, eng.alloc(st, sref)], st)
+        sync_ok = out1.idx == bv(0, 8)
+        m_mid = eng.load(st1, cref)
+        st2, out2 = run_async(eng, ck.fn_in("MonotonicCounterSystem", "new_with_sync_interval"), [VOpaque("path"), mk_time(bv(30, 64), bv(0, 32), "Duration")], st1)
+        load_ok = out2.idx == bv(0, 8)
+        sys2 = out2.pay[0][0]
+        c2 = sys2.f[eng.struct_adt("MonotonicCounterSystem").field_index("counters")]
+        m1 = eng.load(st2, c2)
+        if not isinstance(m1, type(m0)):
+            m1 = eng.load(st2, m1)
+        pc = st2.pc
+        written = disk["written"]
+    else:
+        pc = z3.BoolVal(True)
+        write_ok = src.bool("env.write_ok")
+        sync_ok = z3.BoolVal(bool(obs["sync_ok"]))
+        load_ok = z3.BoolVal(bool(obs["load_ok"]))
+        written = sync_ok
+        m_mid = obs_counters(eng, obs, "mid", probes)
+        m1 = obs_counters(eng, obs, "post", probes)
+
+    def same(a, b, k):
+        return z3.And(z3.Select(b.present, k) == z3.Select(a.present, k),
+                      z3.Implies(z3.Select(a.present, k), z3.And(*[x == y for x, y in zip(flatten(sel(a, k)), flatten(sel(b, k)))])))
+
+    G = {}
+    G["a_successful_sync_has_written_the_counters"] = sync_ok == written
+    G["sync_does_not_change_the_live_counters"] = z3.And(same(m0, m_mid, ku), same(m0, m_mid, ko))
+    G["a_store_reloaded_after_a_sync_holds_exactly_the_persisted_counters"] = z3.Implies(sync_ok, z3.And(load_ok, same(m0, m1, ku), same(m0, m1, ko)))
+    return {"eng": eng, "hyps": hyps, "goals": {g: z3.Implies(pc, f) for g, f in G.items()}, "reach": {"reach_reloaded": z3.And(pc, sync_ok, load_ok, z3.Select(m0.present, ku))}}
+
+
 def register_all(ck, tier):
     def reg():
         src = Src()
@@ -286,6 +396,20 @@ def register_all(ck, tier):
 
     ck.guarded("cleanup_old_sequences", reg2)
 
+    def reg4():
+        src = Src()
+        R = build_persist(ck, src)
+        rp = harness.make_replayer(ck, "monotonic_counter", "persist", lambda s, obs: build_persist(ck, s, obs), {})
+        ck.register_src("persist", {}, src)
+        for g, f in R["goals"].items():
+            ck.prove(f"persist_and_reload/{g}", R["eng"], R["hyps"], f, on_sat=rp, meta={"goal": g})
+        for g, f in R["reach"].items():
+            ck.reach(f"persist_and_reload/{g}", R["eng"], R["hyps"], f)
+        ck.side("persist_and_reload/side", R["eng"], R["hyps"], on_sat=rp)
+        ck.out.samples.append({"obligation": "sync_counters + new_with_sync_interval/load_counters (async)", "state": "arbitrary counter map, file system and postcard as environment", "goals": list(R["goals"])})
+
+    ck.guarded("persist_and_reload", reg4)
+
     for same in (True, False):
         def reg3(same=same):
             params = {"same_user": same}
@@ -310,4 +434,6 @@ def rebuild(ck, driver, params):
         return lambda s, obs: build_batch(ck, params["same_user"], s, obs)
     if driver == "cleanup":
         return lambda s, obs: build_cleanup(ck, s, obs)
+    if driver == "persist":
+        return lambda s, obs: build_persist(ck, s, obs)
     return lambda s, obs: build_validate(ck, s, obs)
